@@ -57,7 +57,7 @@ def main():
         target, applied_to = wt, "the worktree (patch no longer applies to the current tree)"
     for c in checks:
         t0 = time.time()
-        rc, out = sh(f"{VERIF}/check {c}", VERIF, dict(os.environ, HV_REPO=target))
+        rc, out = sh(f"{VERIF}/check {c}", VERIF, dict(os.environ, HV_REPO=target, HV_EVIDENCE_DIR="/tmp/hv_seed_evidence"))
         keys = sorted({l.strip()[4:] for l in out.splitlines() if l.strip().startswith("key=")})
         results[c] = {"exit": rc, "fired": f"VIOLATION property={c}" in out, "keys": keys[:8], "wall_s": round(time.time() - t0, 1),
                       "summary": out.strip().splitlines()[-1] if out.strip() else ""}
